@@ -86,7 +86,10 @@ def fisher_ref(a, b, c, d):
     if not (N > 0 and 0 < n < N and 0 < m < N):
         return None
     lo, hi = max(0, n - (b + d)), min(n, m)
-    w = [math.comb(m, k) * math.comb(N - m, n - k) for k in range(lo, hi + 1)]
+    if n <= m:
+        w = [math.comb(m, k) * math.comb(N - m, n - k) for k in range(lo, hi + 1)]
+    else:   # same distribution (C(m,k)C(N-m,n-k)/C(N,n) = C(n,k)C(N-n,m-k)/C(N,m)), smaller integers
+        w = [math.comb(n, k) * math.comb(N - n, m - k) for k in range(lo, hi + 1)]
     wmax = max(w)
     wf = [k / wmax for k in w]   # floats in (0, 1] (int / int is correctly rounded at any size): huge binomials must not overflow
     return {'lo': lo, 'hi': hi, 'w': w, 'wf': wf, 'x': a}
